@@ -750,6 +750,7 @@ func (x *ckExec) save(op ckOp) {
 		what += " with a biome section whose indices are wider than its palette length needs"
 	}
 	proj := ckEmptyProj()
+	srcSame, againSame := true, true
 	if terr == nil {
 		src := sv
 		if op.Flag { // through the NBT bytes of the save form, as a region file holds them
@@ -776,9 +777,40 @@ func (x *ckExec) save(op ckOp) {
 		}
 		if ferr == nil {
 			proj = x.project(d)
+			// the converted chunk is a value of its own: it is edited (blocks already present in each section, so that
+			// no palette grows; every height map), then the chunk that was saved must be what it was, and converting
+			// the same save form once more must give what the first conversion gave
+			before := mustJSON(x.project(x.c))
+			first := mustJSON(proj)
+			catch(func() {
+				for si := range d.Sections {
+					sec := &d.Sections[si]
+					v := sec.GetBlock(x.rng.Intn(4096))
+					for k := 0; k < 24; k++ {
+						sec.SetBlock(x.rng.Intn(4096), v)
+					}
+				}
+				for _, hm := range []*level.BitStorage{d.HeightMaps.WorldSurfaceWG, d.HeightMaps.WorldSurface, d.HeightMaps.OceanFloorWG,
+					d.HeightMaps.OceanFloor, d.HeightMaps.MotionBlocking, d.HeightMaps.MotionBlockingNoLeaves} {
+					if hm != nil {
+						for i := 0; i < 256; i += 1 + x.rng.Intn(7) {
+							hm.Set(i, (hm.Get(i)+1+x.rng.Intn(14))%16)
+						}
+					}
+				}
+			})
+			srcSame = mustJSON(x.project(x.c)) == before
+			var d2 *level.Chunk
+			var e2 error
+			if p, _ := catch(func() { d2, e2 = level.ChunkFromSave(src) }); p || e2 != nil {
+				againSame = false
+			} else {
+				againSame = mustJSON(x.project(d2)) == first
+			}
 		}
 	}
-	x.ev(map[string]any{"k": "save", "ypos": op.YPos, "terr": terr != nil, "sv": svo, "ferr": ferr != nil, "direct": direct, "loose": loose, "what": what, "vianbt": op.Flag, "d": proj, "why": ckWhy(terr, ferr)})
+	x.ev(map[string]any{"k": "save", "ypos": op.YPos, "terr": terr != nil, "sv": svo, "ferr": ferr != nil, "direct": direct, "loose": loose, "what": what, "vianbt": op.Flag, "d": proj, "why": ckWhy(terr, ferr),
+		"srcsame": srcSame, "againsame": againSame})
 }
 
 func (x *ckExec) vanilla(op ckOp) {
